@@ -489,7 +489,7 @@ class Fbank(LinearFilterBank):
             high_hz and (high_hz <= low_hz or high_hz > sampling_rate // 2)
         ):
             raise ValueError(
-                "Invalid frequency range: ({:.2f},{:.2f}".format(low_hz, high_hz)
+                "Invalid frequency range: ({:.2f},{})".format(low_hz, high_hz)
             )
         self._rate = sampling_rate
         if high_hz is None:
@@ -703,7 +703,7 @@ class GaborFilterBank(LinearFilterBank):
             high_hz and (high_hz <= low_hz or high_hz > sampling_rate // 2)
         ):
             raise ValueError(
-                "Invalid frequency range: ({:.2f},{:.2f}".format(low_hz, high_hz)
+                "Invalid frequency range: ({:.2f},{})".format(low_hz, high_hz)
             )
         self._rate = sampling_rate
         if high_hz is None:
@@ -984,7 +984,7 @@ class ComplexGammatoneFilterBank(LinearFilterBank):
             high_hz and (high_hz <= low_hz or high_hz > sampling_rate // 2)
         ):
             raise ValueError(
-                "Invalid frequency range: ({:.2f},{:.2f}".format(low_hz, high_hz)
+                "Invalid frequency range: ({:.2f},{})".format(low_hz, high_hz)
             )
         if not isinstance(order, int) or order <= 0:
             raise ValueError("order must be a positive integer")
